@@ -41,6 +41,38 @@ DEFAULT_CLASS = {"RegionQuad": "GaussLegendre", "RegionQuadraticQuad": "GaussLeg
                  "RegionQuadraticHexahedronBoundary": "GaussLegendreBoundary",
                  "RegionTriQuadraticHexahedronBoundary": "GaussLegendreBoundary"}
 
+# dimension of the cell of every region template, as its name says (quad / triangle 2, hexahedron / tetra 3, vertex 1); the default
+# rule of a template lives on the reference cell of that dimension (the boundary rules too: a rule of the cell's dimension placed
+# on the first face, with the point count of the one-dimension-lower rule)
+TEMPLATE_DIM = {"RegionQuad": 2, "RegionQuadraticQuad": 2, "RegionBiQuadraticQuad": 2, "RegionConstantQuad": 2,
+                "RegionHexahedron": 3, "RegionQuadraticHexahedron": 3, "RegionTriQuadraticHexahedron": 3, "RegionConstantHexahedron": 3,
+                "RegionTriangle": 2, "RegionQuadraticTriangle": 2, "RegionTriangleMINI": 2,
+                "RegionTetra": 3, "RegionQuadraticTetra": 3, "RegionTetraMINI": 3, "RegionVertex": 1,
+                "RegionQuadBoundary": 2, "RegionQuadraticQuadBoundary": 2, "RegionBiQuadraticQuadBoundary": 2,
+                "RegionHexahedronBoundary": 3, "RegionQuadraticHexahedronBoundary": 3, "RegionTriQuadraticHexahedronBoundary": 3}
+
+
+def documented_default(name, permute=True):
+    """The rule a template documents, stated without looking at the template's rule: (class, arguments, number of points, number of
+    coordinates per point).  Fixed templates: the literal tables above; RegionLagrange: the arguments of the call the name spells out
+    (the template forwards order, dim and permute to its rule)."""
+    base = name.split("(")[0]
+    cls = DEFAULT_CLASS[base]
+    if base == "RegionLagrange":
+        order, dim = int(name.split("order=")[1][0]), int(name.split("dim=")[1][0])
+        return cls, {"order": order, "dim": dim, "permute": permute}, (order + 1) ** dim, dim
+    order, dim = DEFAULT_ORDER[base], TEMPLATE_DIM[base]
+    if cls in ("Triangle", "Tetrahedron"):
+        return cls, {"order": order}, MQ.NPOINTS_SIMPLEX[cls][order], dim
+    # default of the templates: points in the cell point order of the element they are paired with
+    return cls, {"order": order, "dim": dim, "permute": True}, (order + 1) ** (dim - (1 if cls.endswith("Boundary") else 0)), dim
+
+
+def lab_default(name, permute=True):
+    cls, args, _, _ = documented_default(name, permute)
+    return "%s.quadrature=%s(order=%s)" % (name, cls, args["order"])
+
+
 # the templates of vmon.gen.template_cases (its names are the units every run must reach) ...
 TEMPLATE_NAMES = list(DEFAULT_ORDER) + ["RegionLagrange(order=2,dim=2)", "RegionLagrange(order=3,dim=2)", "RegionLagrange(order=2,dim=3)"]
 # ... and further RegionLagrange instances built here: (order, dim, permute); the template forwards all three to its rule
@@ -314,6 +346,8 @@ def case_family(family):
                     else:
                         run.fail("scheme.default", "template=%s clause=default-class" % name,
                                  "%s: the default quadrature is a %s, documented is %s" % (name, cls, DEFAULT_CLASS.get(base)))
+                    # what the rule itself looks like (point count, own dim attribute): only for the one-sided order clause below and
+                    # for a rule of a class the template does not document
                     if cls in ("GaussLegendre", "GaussLegendreBoundary"):
                         n1 = round(len(q.weights) ** (1.0 / (q.dim - (1 if cls.endswith("Boundary") else 0))))
                         args = {"order": n1 - 1, "dim": q.dim}
@@ -323,26 +357,41 @@ def case_family(family):
                         if args["order"] is None:
                             run.fail("scheme.default", "template=%s clause=default-rule-known" % name,
                                      "%s: the default %s rule has %d points, no documented order has" % (name, cls, len(q.weights)))
-                            continue
+                            if cls != DEFAULT_CLASS.get(base):
+                                continue
                     elif cls in ("GaussLobatto", "GaussLobattoBoundary"):
                         n1 = round(len(q.weights) ** (1.0 / (q.dim - (1 if cls.endswith("Boundary") else 0))))
                         args = {"order": n1 - 2, "dim": q.dim}
                     else:
                         run.skip("scheme.default", "default rule of a class outside the property's family (reported by clause=default-class)")
                         continue
-                    # the inferred order only labels the exactness test; the order a template must at least come with is
-                    # stated here literally (the documented defaults), so a lower rule under the same template name is seen
+                    # the order a template must at least come with is stated here literally (the documented defaults), so a lower
+                    # rule under the same template name is seen
                     need = DEFAULT_ORDER.get(base, (int(name.split("order=")[1][0]) if "order=" in name else None))
-                    if need is not None:
+                    if need is not None and args["order"] is not None:
                         run.compare("scheme.default", "template=%s clause=default-order" % name, float(max(0, need - args["order"])), 0.5,
                                     "%s: the default quadrature is %s(order=%s), documented is order %s" % (name, cls, args["order"], need),
                                     unit="default-order", config=("default-order", name))
-                    if base == "RegionLagrange":
-                        # the template forwards order, dim and permute to its rule: judged against the arguments of *this* call
-                        # (the point count of the inferred order says nothing)
-                        args = {"order": need, "dim": int(name.split("dim=")[1][0]), "permute": permute}
+                    if cls == DEFAULT_CLASS.get(base):
+                        # fourth audit: order and dimension were taken from the rule under test (its point count, its dim attribute),
+                        # so a richer rule or one of another dimension under the same template passed its own label.  The documented
+                        # rule is stated here (class, order, dimension of the template's cell; RegionLagrange: the arguments of *this*
+                        # call, which the template forwards): two-sided point count, coordinates per point, and every clause of the
+                        # monitor (exactness degree, documented point count, layout grid) against these arguments
+                        _, args, want_n, want_dim = documented_default(name, permute)
+                        got_n = (len(np.asarray(q.weights)), np.shape(q.points)[0])
+                        run.compare("scheme.default", "template=%s clause=default-npoints" % name,
+                                    float(max(abs(got_n[0] - want_n), abs(got_n[1] - want_n))), 0.5,
+                                    "%s: the default quadrature has %d weights / %d points, the documented %s(order=%s) has %d" % (
+                                        name, got_n[0], got_n[1], cls, args["order"], want_n),
+                                    unit="default-npoints:" + name, config=("default-npoints", name))
+                        got_dim = np.shape(q.points)[1] if np.ndim(q.points) == 2 else -1
+                        run.compare("scheme.default", "template=%s clause=default-dim" % name, float(abs(got_dim - want_dim)), 0.5,
+                                    "%s: the points of the default quadrature have %d coordinates, the cell of the template has %d" % (
+                                        name, got_dim, want_dim),
+                                    unit="default-dim:" + name, config=("default-dim", name))
                     elif cls.startswith("GaussLegendre"):
-                        # default of the templates: points in the cell point order of the element they are paired with
+                        # a rule of another class than documented (a verdict above): judged as what it appears to be
                         args["permute"] = True
                     MQ.validate_scheme(run, q, args, label="%s.quadrature=%s(order=%s)" % (name, cls, args["order"]))
                     run.units["default-of-template"] += 1
@@ -419,6 +468,13 @@ def _required():
     for name in ("RegionQuad", "RegionHexahedron", "RegionBiQuadraticQuad", "RegionTriQuadraticHexahedron", "RegionQuadraticQuad",
                  "RegionQuadraticHexahedron"):
         req.append("%s.quadrature=GaussLegendre(order=%s):layout" % (name, DEFAULT_ORDER[name]))
+    # every template's default rule against the rule the template documents (label with the literal order, not the one the rule shows)
+    for name, permute in [(n, True) for n in TEMPLATE_NAMES] + [(lab_lagrange(*a), a[2]) for a in LAGRANGE_MORE]:
+        req += ["default-npoints:" + name, "default-dim:" + name]
+        lab = lab_default(name, permute)
+        req += [lab + ":" + u for u in ("npoints", "exactness", "inside", "measure")]
+        if DEFAULT_CLASS[name.split("(")[0]].startswith("GaussLegendre"):
+            req.append(lab + ":layout")
     for backend, _, fname in SPHERE_FRAMEWORKS:
         req += ["BazantOh-default:%s.%s:in-use" % (backend, fname), "BazantOh-default:%s.%s:unchanged" % (backend, fname),
                 "%s.%s.quadrature=BazantOh(n=21):exactness" % (backend, fname)]
@@ -438,7 +494,8 @@ SPEC = {
              "(cell point order of the VTK Lagrange cell where permute applies, tensor-product order with the first axis fastest "
              "otherwise) against literal grids; orders 0..3 once more through every other way of writing the arguments "
              "(default permute, positional, 1/0/np.bool_, numpy integers) against the arguments the caller meant; template "
-             "defaults by class and cell order, RegionLagrange(order 1..5, permute on/off) against the forwarded arguments; the "
+             "defaults by class, two-sided point count and coordinates per point of the documented rule (literal order and cell "
+             "dimension per template, not read from the rule) and cell order, RegionLagrange(order 1..5, permute on/off) against the forwarded arguments; the "
              "import-time BazantOh defaults of the 14 micro-sphere framework functions after one use each"),
     "assumptions": ["closed-form monomial integrals (factorial/Gamma formulas) are the reference",
                     "table precision: BazantOh 5e-11 (12-digit table, measured 1e-12), all others 1e-12 relative to the measure",
